@@ -626,3 +626,41 @@ def gen_frozen_prog(rng):
     items.append(('label', 'fwd'))
     p.items = items
     return p
+
+
+def gen_pcassert_prog(rng):
+    """directed family: candidates of EQUAL size selected by assertions that read the current address, used with literal
+    arguments behind something that only gets its size in pass 2 (the instruction's pass-1 address is a pessimistic
+    guess): the choice made in pass 1 must be revisited"""
+    isa = Isa()
+    pn = rng.choice(['a', 'x', 'v'])
+    o1, o2 = rng.below(256), rng.below(256)
+    rel = rng.below(3)
+    c1, c2 = [('%s < $' % pn, '%s >= $' % pn), ('$ - %s > 0' % pn, '$ - %s <= 0' % pn), ('%s + 1 <= $' % pn, '%s + 1 > $' % pn)][rel]
+    tail = rng.choice(['%s`8' % pn, '(%s)`8' % pn, '0x%02x' % rng.below(256)])
+    isa.rules.append(dict(m='jmp', ops=[('expr', pn, None, ('', ''))], prod='{ assert(%s), 0x%02x @ %s }' % (c1, o1, tail), cascade=True))
+    isa.rules.append(dict(m='jmp', ops=[('expr', pn, None, ('', ''))], prod='{ assert(%s), 0x%02x @ %s }' % (c2, o2, tail), cascade=True))
+    if rng.chance(0.5):
+        isa.rules.append(dict(m='nop', ops=[], prod='0x00'))
+    p = Prog(isa)
+    p.names += ['fwd']
+    k = rng.range(2, 7)
+    items = []
+    front = rng.below(3)
+    if front == 0:
+        items.append(('res', 'fwd - fwd + %d' % k))
+    elif front == 1:
+        items.append(('res', '(fwd > 0 ? %d : 0)' % k))
+    else:
+        p.names.append('pad')
+        items.append(('res', 'pad'))
+    n = rng.range(1, 3)
+    for _ in range(n):
+        items.append(('instr', 0, [str(rng.range(0, k + 2 * n))]))
+    if rng.chance(0.4):
+        items.append(('data', 8, ['fwd']))
+    items.append(('label', 'fwd'))
+    if front == 2:
+        items.append(('const', 'pad', 'fwd - fwd + %d' % k))
+    p.items = items
+    return p
